@@ -317,6 +317,15 @@ def worker(case: Dict[str, Any]) -> CaseResult:
     queries = "\n\n".join(frs + ops)
     authored = parse(queries)
     extra_files = dict(case.get("extra_files") or {})
+    if case.get("collide") == "fragments-module" and names and frs:
+        # the fragments module is given the very name an operation's module gets: one of the documented refusals (colliding file names), or both usable
+        import re as _re
+        cfg_full["fragments_module_name"] = "_".join(w.lower() for w in _re.findall(r"[A-Z]?[a-z]+|[A-Z]+(?=[A-Z][a-z]|\d|\W|_|$)|\d+", names[0]))
+        feats = list(feats) + ["collision.fragments_module_vs_operation"]
+    elif case.get("collide") == "included-exceptions":
+        extra_files["exceptions.py"] = "class NotLoaded(Exception):\n    pass\n"
+        cfg_full["files_to_include"] = list(cfg_full.get("files_to_include", [])) + ["exceptions.py"]
+        feats = list(feats) + ["collision.included_file_vs_bundled"]
     strict = strict_scalar_names(case, schema_ref)
     if strict:
         # every custom scalar configured as str + a parse function that is the identity on values and refuses None: values, round trip and
@@ -779,6 +788,10 @@ def with_custom_operations(case: Dict[str, Any], i: int) -> None:
     if i % 9 == 4:
         case["cfg"] = dict(case["cfg"])
         case["cfg"]["include_comments"] = "stable"
+    if i % 23 == 7:
+        case["collide"] = "included-exceptions"
+    elif i % 23 == 16:
+        case["collide"] = "fragments-module"
 
 
 def with_mixins(case: Dict[str, Any], i: int) -> None:
